@@ -57,10 +57,12 @@ class Ctx:
         return self.tier == "quick"
 
     # ------------------------------------------------------------ recording
-    def emit(self, opname, a, pre_vals=(), pre_objs=None, tag=None):
+    def emit(self, opname, a, pre_vals=(), pre_objs=None, tag=None, log=True):
         from . import ops
 
         ev, res = ops.event(opname, a, list(pre_vals), self.backend, pre_objs)
+        if not log:
+            return res
         self.nid += 1
         ev["id"] = "%s.%d.%d" % (self.backend, self.i, self.nid)
         if tag is not None:
